@@ -429,7 +429,10 @@ class RDFWriter(object):
         if filename.find(RDF_CONVERSION_FORMATS.get(rdf_format)) < 0:
             filename_ext += RDF_CONVERSION_FORMATS.get(rdf_format)
 
-        with open(filename_ext, "w") as out_file:
+        # The file is UTF-8 whatever the locale prefers; text that cannot be
+        # encoded has to fail before the file is opened.
+        data.encode("utf-8")
+        with open(filename_ext, "w", encoding="utf-8") as out_file:
             out_file.write(data)
 
 
